@@ -14,7 +14,8 @@
         forall d cs, read d = RErr cs -> forall c, In c cs <-> In c gen_doc_validation /\ violates c d = true
    are FALSE for the code as written (the `_refuted` theorems); the `_partial` theorems prove them for every document outside
    the known classes.  Only property theorems here, each closed by `exact`. *)
-From VRP Require Import Base.Tac Model.Validation Spec.Rules Generated.RuleTable Proofs.ValidationP.
+From VRP Require Import Base.Tac Model.Validation Model.ValidationX Model.RulePins Model.Reader Spec.Rules Spec.RulesX Generated.RuleTable
+  Proofs.ValidationP Proofs.ValidationXP Proofs.ReaderP.
 From Coq Require Import String.
 
 (* clause "never a crash" *)
@@ -130,3 +131,146 @@ Proof. exists w_k9. exact k9_witness. Qed.
 (* K8  pickups and deliveries with empty demand vectors: E1102 reported although the sums are equal *)
 Theorem C10_codes_exact_K8_refuted : exists d, k8_empty_demand_vectors d = true /\ read d = RErr [1102] /\ violates 1102 d = false.
 Proof. exists w_k8. exact k8_witness. Qed.
+
+(* ====================================================================================================================== *)
+(* The EXTENDED document (Model/ValidationX.v :: xdoc): relations, objectives, job values, task orders, coordinate / index /   *)
+(* mixed locations with supplied (incl. timestamps, errorCodes) or approximated matrices, recharge stations, clustering       *)
+(* profile, explicit speeds, resource capacities.  xvalidate / xread: Model/ValidationX.v, Model/Reader.v (the code as        *)
+(* written); xviolates: Spec/RulesX.v (the documentation page, readings R1-R20); xknown: the recorded deviation classes        *)
+(* K6-K9 (on the base document; K7 also for resource capacities), X11, X14, X16, G1, G2.                                        *)
+(* ====================================================================================================================== *)
+
+(* every rule function of the relation / objective / routing groups as written IS its documented rule, for every document
+   (no known class is needed for these three groups): `f d = Some b` reads "check_eNNNN reports an error iff b" *)
+Theorem C10_x_relation_rules_spec : forall d c f, In (c, f) relations_checks -> f d = Some (xviolates c d).
+Proof. exact relations_agree. Qed.
+Theorem C10_x_objective_rules_spec : forall d c f, In (c, f) objectives_checks -> f d = Some (xviolates c d).
+Proof. exact objectives_agree. Qed.
+Theorem C10_x_routing_rules_spec : forall d c f, In (c, f) xrouting_checks -> f d = Some (xviolates c d).
+Proof. exact routing_agree. Qed.
+(* rule by rule, on a document that has relations / objectives (the `on_relations` / `on_objectives` wrappers of the table are the
+   `if let Some(..)` of validate_relations / validate_objectives) *)
+Theorem C10_x_check_e12xx_spec : forall d rels, x_relations d = Some rels ->
+  check_e1200 d rels = viol_1200 d /\ check_e1201 d rels = viol_1201 d /\ check_e1202 rels = viol_1202 d
+  /\ check_e1203 d rels = viol_1203 d /\ check_e1204 rels = viol_1204 d /\ check_e1205 d rels = viol_1205 d
+  /\ check_e1206 d rels = viol_1206 d /\ check_e1207 d rels = viol_1207 d.
+Proof.
+  exact (fun d rels E => conj (e1200_ok d rels E) (conj (e1201_ok d rels E) (conj (e1202_ok d rels E) (conj (e1203_ok d rels E)
+         (conj (e1204_ok d rels E) (conj (e1205_ok d rels E) (conj (e1206_ok d rels E) (e1207_ok d rels E)))))))).
+Qed.
+(* the routing rules in every location / matrix mode; E1504 with the overwriting reverse index of CoordIndex *)
+Theorem C10_x_check_e15xx_spec : forall d,
+  xcheck_e1500 d = xviol_1500 d /\ xcheck_e1501 d = xviol_1501 d /\ xcheck_e1502 d = xviol_1502 d
+  /\ xcheck_e1503 d = xviol_1503 d /\ xcheck_e1504 d = xviol_1504 d /\ xcheck_e1505 d = xviol_1505 d.
+Proof.
+  exact (fun d => conj (x1500_ok d) (conj (x1501_ok d) (conj (x1502_ok d) (conj (x1503_ok d) (conj (x1504_ok d) (x1505_ok d)))))).
+Qed.
+(* CoordIndex keeps, per value, only the LAST location (a coordinate can replace an index location): whenever the number of
+   distinct locations does not exceed the matrix size, `unique()` still shows an index outside the matrix iff the problem has one *)
+Theorem C10_x_reverse_index_loses_nothing : forall ls size, (ndistinct ls <= size)%nat ->
+  has_index_outside size (coord_index ls) = existsb (index_ge size) ls.
+Proof. exact outside_spec. Qed.
+
+(* the validation engine on the extended document: outside K6-K9 of the base document it reports exactly the broken rules, in
+   source order (jobs, vehicles, objectives, routing, relations) *)
+Theorem C10_x_validate_is_spec_partial : forall d, known (xbase d) = false ->
+  xvalidate d = match filter (fun c => xviolates c d) (map fst xall_checks) with [] => VOk | cs => VErr cs end.
+Proof. exact xvalidate_spec. Qed.
+
+(* clause "never a crash" *)
+Theorem C10_x_read_total_partial : forall d, xknown d = false -> xread d <> RPanic.
+Proof. exact xread_total_l. Qed.
+
+(* clause "accepted exactly when it breaks none of the documented rules"; the second conjunct is the reader step
+   create_transport_costs on the supplied (or approximated) matrices, whose failure is the documented generic code E0002
+   (C10_matrix_step_spec, C10_transport_ok_is_square_and_covers_distances describe it) *)
+Theorem C10_x_accept_iff_partial : forall d, xknown d = false ->
+  (xread d = ROk <-> (forall c, In c gen_doc_validation -> xviolates c d = false)
+                     /\ xtransport_fails (x_profiles d) (seen_matrices d) = false).
+Proof. exact xaccept_iff_l. Qed.
+
+(* clause "each reported code names a rule the input really breaks": either the codes are exactly the broken validation rules
+   (each once), or no validation rule is broken and the only code is E0002 of the matrix step *)
+Theorem C10_x_codes_exact_partial : forall d cs, xknown d = false -> xread d = RErr cs ->
+  (cs = [2] /\ (forall c, In c gen_doc_validation -> xviolates c d = false)
+            /\ xtransport_fails (x_profiles d) (seen_matrices d) = true)
+  \/ (cs <> [] /\ NoDup cs /\ forall c, In c cs <-> In c gen_doc_validation /\ xviolates c d = true).
+Proof. exact xcodes_exact_l. Qed.
+
+(* documents read WITHOUT routing matrices (String::read_pragmatic / ApiProblem::read_pragmatic): once E1500, E1501 and E1503 hold,
+   the approximated matrices (one n x n matrix per profile) always become transport costs, so the two clauses carry no E0002 part *)
+Theorem C10_x_approx_matrices_always_fit : forall d, x_matrices d = None ->
+  xviolates 1500 d = false -> xviolates 1501 d = false -> xviolates 1503 d = false ->
+  xtransport_fails (x_profiles d) (seen_matrices d) = false.
+Proof. exact approx_transport_ok. Qed.
+Theorem C10_x_accept_iff_without_matrices_partial : forall d, xknown d = false -> x_matrices d = None ->
+  (xread d = ROk <-> forall c, In c gen_doc_validation -> xviolates c d = false).
+Proof. exact xaccept_iff_nomatrix_l. Qed.
+Theorem C10_x_codes_exact_without_matrices_partial : forall d cs, xknown d = false -> x_matrices d = None -> xread d = RErr cs ->
+  cs <> [] /\ NoDup cs /\ forall c, In c cs <-> In c gen_doc_validation /\ xviolates c d = true.
+Proof. exact xcodes_exact_nomatrix_l. Qed.
+
+(* the matrix step on supplied matrices: when it succeeds, the conditions the page states for E0002 hold - profiles set for all
+   matrices or for none; with a timestamp all matrices have profile and timestamp; at least one matrix per distinct fleet profile;
+   every matrix (after the errorCodes step) is a size x size square of one common size *)
+Theorem C10_x_transport_ok_implies_documented_conditions : forall profiles ms, xtransport_fails profiles ms = false ->
+  let named m := is_some (m_profile (xm_matrix m)) in
+  let stamped m := is_some (xm_timestamp m) in
+  (forallb named ms = true \/ forallb (fun m => negb (named m)) ms = true)
+  /\ (existsb stamped ms = true -> forallb named ms = true /\ forallb stamped ms = true)
+  /\ (List.length (dedup_from [] profiles) <= List.length ms)%nat
+  /\ ms <> []
+  /\ exists size, forall m, In m ms -> exists x y, xmatrix_data m = Some (x, y)
+                                      /\ List.length x = (size * size)%nat /\ List.length y = (size * size)%nat.
+Proof. exact xtransport_ok_implies. Qed.
+
+(* what validation buys the reader on the extended document: no rule broken + outside the known classes -> none of the modelled
+   unwraps / asserts / panics of problem_reader, fleet_reader, job_reader (incl. read_recharges, read_locks, Jobs::new) and
+   goal_reader fires, and goal / cluster construction report no error *)
+Theorem C10_x_validated_reader_safe_partial : forall d, xknown d = false ->
+  (forall c, In c gen_doc_validation -> xviolates c d = false) ->
+  fleet_panics (xbase d) = false /\ reserved_times_panic (xbase d) = false /\ reserved_fails (xbase d) = false
+  /\ jobs_panic (xbase d) = false /\ conditional_panic (xbase d) = false /\ recharge_panics d = false
+  /\ locks_panic d = false /\ goal_step d = SOk /\ cluster_step d = SOk
+  /\ (xtransport_fails (x_profiles d) (seen_matrices d) = false -> jobs_index_panics d = false).
+Proof. exact xreader_safe_l. Qed.
+
+(* the extended model runs the rules of the source, all five groups, in the order of the source *)
+Theorem C10_x_model_table_matches_source :
+  map fst objectives_checks = gen_objectives_calls
+  /\ map fst xrouting_checks = gen_routing_calls
+  /\ map fst relations_checks = gen_relations_calls
+  /\ map fst xall_checks = implemented_codes
+  /\ map fst xspec_table = map fst xall_checks.
+Proof. exact xmodel_table_matches_source_l. Qed.
+
+(* translator tie: the text of every rule function and of every helper in validation/*.rs (comments, white space and message texts
+   aside) and the helper predicates each rule mentions are the pinned ones the model was written against (Model/RulePins.v):
+   a rule that is added, removed, renumbered or whose code changes breaks this obligation *)
+Theorem C10_rule_fingerprints :
+  gen_rule_hash = pinned_rule_hash /\ gen_helper_hash = pinned_helper_hash /\ gen_rule_uses = pinned_rule_uses
+  /\ map fst gen_rule_hash = defined_codes.
+Proof. exact rule_fingerprints_l. Qed.
+
+(* non-vacuity: an accepted document with index locations, a matrix, a relation and a multi-objective; a rejected one with one
+   code of each new group *)
+Theorem C10_x_nonvacuous : xknown xw_ok = false /\ xbreaks_no_rule xw_ok /\ xread xw_ok = ROk.
+Proof. exact xnonvacuous_l. Qed.
+Theorem C10_x_nonvacuous_rejected : xknown xw_rejected = false /\ xread xw_rejected = RErr [1602; 1502; 1200].
+Proof. exact xnonvacuous_err_l. Qed.
+
+(* ---- the unrestricted clauses fail on the extended document: one witness per class ---- *)
+(* X11, X14, X16: documents that break no documented rule and panic (in read_locks / before validation / in read_recharges) *)
+Theorem C10_x_read_total_X11_refuted : exists d, x11_special_without_job d = true /\ xbreaks_no_rule d /\ xvalidate d = VOk /\ xread d = RPanic.
+Proof. exists xw_x11. exact x11_witness. Qed.
+Theorem C10_x_read_total_X14_refuted : exists d, x14_speed_not_positive d = true /\ xbreaks_no_rule d /\ xvalidate d = VOk /\ xread d = RPanic.
+Proof. exists xw_x14. exact x14_witness. Qed.
+Theorem C10_x_read_total_X16_refuted : exists d, x16_recharge_times d = true /\ xbreaks_no_rule d /\ xvalidate d = VOk /\ xread d = RPanic.
+Proof. exists xw_x16. exact x16_witness. Qed.
+(* G1, G2: documents that break no documented rule, whose matrices are fine, and that are rejected with E0000 / E0002 *)
+Theorem C10_x_accept_iff_G1_refuted : exists d, g1_goal_unbuildable d = true /\ xbreaks_no_rule d
+  /\ xtransport_fails (x_profiles d) (seen_matrices d) = false /\ xread d = RErr [0].
+Proof. exists xw_g1. exact g1_witness. Qed.
+Theorem C10_x_accept_iff_G2_refuted : exists d, g2_required_breaks d = true /\ xbreaks_no_rule d
+  /\ xtransport_fails (x_profiles d) (seen_matrices d) = false /\ xread d = RErr [2].
+Proof. exists xw_g2. exact g2_witness. Qed.
